@@ -332,3 +332,37 @@ func (s *GraphSpec) genInput(r *Rand) string {
 	}
 	return in
 }
+
+// genLong: an input several times longer than the usual ones (dozens to hundreds of
+// positions per memoised parser); "" where the graph kind has no such input.
+func (s *GraphSpec) genLong(r *Rand) string {
+	var sb strings.Builder
+	switch s.Kind {
+	case "arith":
+		n := r.Range(34, 70)
+		for i := 0; i < n; i++ {
+			if i > 0 {
+				sb.WriteByte("+-*"[r.Intn(3)])
+			}
+			if r.Chance(1, 8) {
+				fmt.Fprintf(&sb, "(%d)", r.Intn(10))
+			} else {
+				fmt.Fprint(&sb, r.Intn(10))
+			}
+		}
+	case "json":
+		sb.WriteString("[")
+		for i, n := 0, r.Range(30, 120); i < n; i++ {
+			if i > 0 {
+				sb.WriteString(", ")
+			}
+			sb.WriteString([]string{"1", "\"x\"", "null", "[2]", "{\"a\": 1}"}[r.Intn(5)])
+		}
+		sb.WriteString("]")
+	case "tokens":
+		for i, n := 0, r.Range(40, 120); i < n; i++ {
+			sb.WriteString(" " + identFromPool(r.Intn(1600)))
+		}
+	}
+	return sb.String()
+}
